@@ -333,14 +333,18 @@ pub unsafe extern "C" fn SFileCreateArchive(
 #[no_mangle]
 pub extern "C" fn SFileCloseArchive(handle: HANDLE) -> bool {
     if let Some(handle_id) = handle_to_id(handle) {
-        // Remove any open files from this archive
-        FILES
-            .lock()
-            .unwrap()
-            .retain(|_, file| file.archive_handle != handle_id);
+        // Close the archive first: SFileOpenFileEx registers its file handle while it holds
+        // the archive table, so once the archive is gone no new file of it can appear and
+        // the purge below sees every one that was opened before.
+        let closed = ARCHIVES.lock().unwrap().remove(&handle_id);
 
-        // Close the archive
-        if ARCHIVES.lock().unwrap().remove(&handle_id).is_some() {
+        if closed.is_some() {
+            // Remove any open files from this archive
+            FILES
+                .lock()
+                .unwrap()
+                .retain(|_, file| file.archive_handle != handle_id);
+
             set_last_error(ERROR_SUCCESS);
             true
         } else {
